@@ -42,7 +42,10 @@ def check_mean(run, ex, jnp, rng, tier):
                 if tier == "quick" and order in (1, 3) and D > 1:
                     continue
                 dt = float(rng.choice([0.002, 0.01]))
-                L = float(rng.choice([2 * np.pi, 3.0]))
+                L = float(rng.choice([2 * np.pi, 3.0, 60.0]))
+                if name == "NavierStokesVelocity" and kind == "solenoidal" and order in (2, 4):
+                    # large box, large step: whatever compressive part a stage leaves behind feeds mean(u div u) of the next one
+                    L, dt = 60.0, 0.1
                 st = registry.make(name, D, N, L=L, dt=dt, order=order, **kw)
                 C = st.num_channels
                 u = zoo.white_noise(rng, C, D, N, amp=0.5) + rng.uniform(-1, 1, (C,) + (1,) * D)
